@@ -157,6 +157,37 @@ def real_size_values(run, tier, rng):
                 if got.shape != full.shape or not np.allclose(got, full, rtol=1e-8, atol=1e-10):
                     run.violation({"kind": "fbf_default_chunk_size_differs_from_full", "computer": type(comp_).__name__, "rate": rate, "L": L, "S": S,
                                    "style": style, "kaldi": kaldi, "N": N, "fbf_shape": list(got.shape), "full_shape": list(full.shape)})
+            # "any float signal": half / single precision and byte-swapped samples, in chunks from one sample to several
+            # DFT blocks (whether a result is produced at all must not depend on the chunking)
+            for dt in ("<f2", "<f4", ">f4", ">f8"):
+                N = 4096 + 7 + (S if dt[1] == "f" and dt[2] == "4" else 0)
+                x = (nprng.randn(N) * 4).astype(dt)
+                tol = {"2": 2e-2, "4": 1e-4, "8": 1e-8}[dt[2]]
+                results = {}
+                for label, size in (("full", None), ("chunks_of_1", 1), ("chunks_of_700", 700), ("chunks_of_3000", 3000), ("one_chunk", N)):
+                    try:
+                        if size is None:
+                            results[label] = comp_.compute_full(x)
+                        else:
+                            outs = [comp_.compute_chunk(x[p:p + size]) for p in range(0, N, size)] + [comp_.finalize()]
+                            results[label] = np.concatenate(outs)
+                    except Exception as e:
+                        run.violation({"kind": "stream_or_full_raised_for_a_float_signal", "computer": type(comp_).__name__, "dtype": dt,
+                                       "how": label, "N": N, "error": repr(e), "style": style})
+                        comp_ = type(comp_) is compute.SIFrameComputer and compute.SIFrameComputer(sbank, frame_shift_ms=sms, frame_style=sstyle) or comp_
+                        try:
+                            if comp_.started:
+                                comp_.finalize()
+                        except Exception:
+                            pass
+                run.evaluations += 1
+                full = results.get("full")
+                for label, got in results.items():
+                    if full is None or label == "full":
+                        continue
+                    if got.shape != full.shape or not np.allclose(got.astype(np.float64), full.astype(np.float64), rtol=tol, atol=tol):
+                        run.violation({"kind": "stream_differs_from_full_for_a_float_signal", "computer": type(comp_).__name__, "dtype": dt,
+                                       "how": label, "N": N, "stream_shape": list(got.shape), "full_shape": list(full.shape), "style": style})
         run.sample({"real_size_config": [rate, Lms, Sms, style, kaldi], "Ns": Ns[:8]})
 
 
@@ -219,16 +250,16 @@ def real_size_count_traces(run, tier, rng):
                     out = c.compute_chunk(x[p:p + k])
                     p += k
                     events.append({"a": "chunk", "c": k, "nret": int(out.shape[0]), "st": bool(c.started),
-                                   "p": {"bl": int(c._buf_len), "ff": bool(c._first_frame)}})
+                                   "p": common.stft_priv(c)})
                     if len(events) > 60:
                         break
                 if p < N:
                     out = c.compute_chunk(x[p:])
                     events.append({"a": "chunk", "c": N - p, "nret": int(out.shape[0]), "st": bool(c.started),
-                                   "p": {"bl": int(c._buf_len), "ff": bool(c._first_frame)}})
+                                   "p": common.stft_priv(c)})
                 out = c.finalize()
                 events.append({"a": "finalize", "c": 0, "nret": int(out.shape[0]), "st": bool(c.started),
-                               "p": {"bl": int(c._buf_len), "ff": bool(c._first_frame)}})
+                               "p": common.stft_priv(c)})
                 tid += 1
                 traces.append({"tid": tid, "cfg": {"L": L, "S": S, "st": stubs.spec_style(st)}, "N": N, "events": events})
                 run.evaluations += 1
